@@ -325,6 +325,8 @@ def addressed_selection(ctx, rule='C07.R4', only=None):
 
 
 def run(ctx):
+    from .configtime import no_identity_test_against_literals as _no_is_literal
+    _no_is_literal(ctx, 'C07.R3', classes=('Container', 'Plate', 'PlateSlicer', 'Slicer'))
     from .configtime import no_shared_mutable_defaults as _mutdef, selection_not_changed_in_place as _sel_inplace
     _mutdef(ctx, 'C07.R1', classes=('Slicer', 'PlateSlicer', 'Plate'))
     _sel_inplace(ctx, 'C07.R1')
